@@ -172,6 +172,13 @@ def check_definition(idx: int, members, t: Tally) -> List[Violation]:
                 bad("open", f"try_value({v}) -> {m!r} name={m.name!r} value={m.value!r}", nclass(v))
             if m in E:
                 bad("open", f"undefined {v} reported as contained in E", nclass(v))
+            try:
+                E(v)
+                bad("closed-call", f"E({v}) stopped raising after try_value({v}) was used", nclass(v))
+            except ValueError:
+                pass
+            if len(E) != len(members) or {int(x) for x in E} != set(canon_name):
+                bad("class-mutable", f"try_value({v}) changed the enum class", nclass(v))
             if copy.deepcopy(m) != v or copy.copy(m) != v:
                 bad("open", f"copy of undefined {v} changes the number", nclass(v))
             for proto in range(0, pickle.HIGHEST_PROTOCOL + 1):
@@ -187,8 +194,11 @@ def check_definition(idx: int, members, t: Tally) -> List[Violation]:
             pass
         except Exception as e:
             bad("by-name", f"from_string(unknown) raised {type(e).__name__}")
-    if E.try_value().value != 0 or E.try_value() != 0:
-        bad("default", "try_value() is not 0")
+    try:
+        if E.try_value().value != 0 or E.try_value() != 0:
+            bad("default", "try_value() is not 0")
+    except Exception as e:
+        bad("default", f"try_value() raised {type(e).__name__}: {e}")
     return out
 
 
